@@ -637,6 +637,18 @@ func (e *Exec) intrinsic(s *State, f *Frame, full string, fn *ssa.Function, args
 			lo := args[0].(*Term)
 			hi := args[1].(*Term)
 			fv := args[2].(*FuncV)
+			if lo.Const && hi.Const && sext(hi.C, 64)-sext(lo.C, 64) <= 64 {
+				var parts []*Term
+				for k := sext(lo.C, 64); k < sext(hi.C, 64); k++ {
+					parts = append(parts, e.evalPureCall(s, fv.Fn, []Value{BVConst(uint64(k), 64)}, fv.Free).(*Term))
+				}
+				if name == "verif_forall" {
+					setRes(c.And(parts...))
+				} else {
+					setRes(c.Or(parts...))
+				}
+				return true
+			}
 			snap := e.snapshot(s)
 			q := &Quant{forall: name == "verif_forall", lo: lo, hi: hi, kind: quantInt}
 			q.body = func(k *Term) *Term {
